@@ -601,3 +601,188 @@ Proof.
   - cbn [inv_ok] in H. destruct a as [|y a]; [inversion Heq|].
     inversion Heq. subst. exact (IH H a f b eq_refl).
 Qed.
+
+(* ---- C04 part 2: the published instance is final -------------------------------------------------- *)
+
+Lemma obs_final_other : forall n v o out, op_name o <> n -> obs_final n v (o, out) = true.
+Proof.
+  intros n v o out H. unfold obs_final. cbn [fst snd].
+  destruct o; try reflexivity; cbn [op_name] in H;
+    (destruct (Nat.eqb n0 n) eqn:E; [apply Nat.eqb_eq in E; contradiction|reflexivity]).
+Qed.
+
+(* n published as v and closed: every observation of n says so, until n is republished *)
+Lemma final_state : forall vt n v ops s stk l2 l3,
+  proto_from stk (trace_from vt s ops) = true ->
+  mem n stk = false ->
+  view s n = (Some v, l2, l3, false) ->
+  final_from n v (trace_from vt s ops) = true.
+Proof.
+  intros vt n v ops. induction ops as [|o r IH]; intros s stk l2 l3 Hp Hm Hv; [reflexivity|].
+  rewrite trace_from_cons in *. cbn [final_from fst].
+  destruct (republishes n o) eqn:Erep; [reflexivity|].
+  apply proto_from_cons in Hp. destruct Hp as [stk' [Hstep Hrest]].
+  destruct (Nat.eq_dec (op_name o) n) as [Hn|Hn].
+  - destruct (step_self vt s o n Hn) as [Hv' Ho]. rewrite Hv in Hv', Ho.
+    set (s' := fst (rstep vt s o)) in *. set (out := snd (rstep vt s o)) in *.
+    destruct o as [m f|m|m w|m early fout|m|m w|m|m]; cbn [op_name] in Hn; subst m;
+      cbn [republishes] in Erep; rewrite ?Nat.eqb_refl in Erep; try discriminate.
+    + (* OAddFactory n: not while n is closed *)
+      unfold proto_step in Hstep. cbn [fst] in Hstep. rewrite Hm in Hstep. discriminate.
+    + (* OGet *) cbn [vstep fst snd] in Hv', Ho. rewrite Ho. unfold obs_final. cbn [fst snd].
+      rewrite Nat.eqb_refl. cbn [rout_eqb optver_eqb optnat_eqb]. rewrite ver_eqb_refl. cbn [andb].
+      unfold proto_step in Hstep. cbn [fst] in Hstep. inversion Hstep; subst stk'.
+      exact (IH s' stk l2 l3 Hrest Hm Hv').
+    + (* OBegin: returns the published instance, opens nothing *)
+      cbn [vstep fst snd] in Hv', Ho. rewrite Ho. unfold obs_final. cbn [fst snd].
+      rewrite Nat.eqb_refl. cbn [rout_eqb optver_eqb optnat_eqb]. rewrite ver_eqb_refl. cbn [andb].
+      unfold proto_step in Hstep. cbn [fst snd] in Hstep. rewrite Hm, Ho in Hstep. cbn [began] in Hstep.
+      inversion Hstep; subst stk'. exact (IH s' stk l2 l3 Hrest Hm Hv').
+    + (* OEndOk n: n is not open *)
+      unfold proto_step in Hstep. cbn [fst] in Hstep. destruct stk as [|k q]; [discriminate|].
+      destruct (Nat.eqb k n) eqn:E; [|discriminate]. apply Nat.eqb_eq in E. subst k.
+      rewrite mem_cons, Nat.eqb_refl in Hm. discriminate.
+    + unfold proto_step in Hstep. cbn [fst] in Hstep. destruct stk as [|k q]; [discriminate|].
+      destruct (Nat.eqb k n) eqn:E; [|discriminate]. apply Nat.eqb_eq in E. subst k.
+      rewrite mem_cons, Nat.eqb_refl in Hm. discriminate.
+    + (* OIsCreating *) cbn [vstep fst snd] in Hv', Ho. rewrite Ho. unfold obs_final. cbn [fst snd].
+      rewrite Nat.eqb_refl. cbn [rout_eqb Bool.eqb andb].
+      unfold proto_step in Hstep. cbn [fst] in Hstep. inversion Hstep; subst stk'.
+      exact (IH s' stk l2 l3 Hrest Hm Hv').
+  - rewrite obs_final_other by exact Hn. cbn [andb].
+    apply (IH _ stk' l2 l3 Hrest).
+    + rewrite (proto_step_other _ _ _ n Hstep) by exact Hn. exact Hm.
+    + rewrite rstep_view_other by exact Hn. exact Hv.
+Qed.
+
+Theorem published_final_from : forall vt ops s stk,
+  NoDup stk ->
+  proto_from stk (trace_from vt s ops) = true ->
+  published_final_b (trace_from vt s ops) = true.
+Proof.
+  intros vt ops. induction ops as [|o r IH]; intros s stk Hnd Hp; [reflexivity|].
+  rewrite trace_from_cons in *. apply proto_from_cons in Hp. destruct Hp as [stk' [Hstep Hrest]].
+  pose proof (proto_step_nodup _ _ _ Hstep Hnd) as Hnd'.
+  specialize (IH _ _ Hnd' Hrest).
+  destruct o as [m f|m|m v|m early fout|m|m v|m|m]; cbn [published_final_b]; try exact IH.
+  rewrite IH, andb_true_r.
+  destruct (proto_step_end _ _ _ m Hstep) as [_ Hm]; [cbn; apply Nat.eqb_refl|exact Hnd|].
+  destruct (step_self vt s (OEndOk m v) m eq_refl) as [Hv' _].
+  destruct (view s m) as [[[l1 l2] l3] c]. cbn [vstep fst] in Hv'.
+  exact (final_state vt m v r _ stk' None None Hrest Hm Hv').
+Qed.
+
+Lemma published_final_b_spec : forall tr,
+  published_final_b tr = true ->
+  forall pre n v out post, tr = pre ++ (OEndOk n v, out) :: post -> final_from n v post = true.
+Proof.
+  intros tr H pre. revert tr H. induction pre as [|e pre IH]; intros tr H n v out post Heq.
+  - subst tr. cbn [app published_final_b] in H. apply andb_true_iff in H. apply H.
+  - subst tr. rewrite <- app_comm_cons in H.
+    apply (IH (pre ++ (OEndOk n v, out) :: post)) with (out := out); [|reflexivity].
+    destruct e as [o eo]. destruct o; cbn [published_final_b] in H; try exact H.
+    apply andb_true_iff in H. apply H.
+Qed.
+
+(* reading final_from: every entry before the first republication of n satisfies obs_final *)
+Lemma final_from_spec : forall n v tr,
+  final_from n v tr = true ->
+  forall a e b, tr = a ++ e :: b -> forallb (fun x => negb (republishes n (fst x))) a = true ->
+  republishes n (fst e) = false -> obs_final n v e = true.
+Proof.
+  intros n v tr H a. revert tr H. induction a as [|x a IH]; intros tr H e b Heq Ha He.
+  - subst tr. cbn [app final_from] in H. rewrite He in H. apply andb_true_iff in H. apply H.
+  - subst tr. rewrite <- app_comm_cons in H. cbn [final_from] in H. cbn [forallb] in Ha.
+    apply andb_true_iff in Ha. destruct Ha as [Hx Ha]. apply negb_true_iff in Hx. rewrite Hx in H.
+    apply andb_true_iff in H. destruct H as [_ H]. exact (IH _ H e b eq_refl Ha He).
+Qed.
+
+(* ---- C04 part 3: clean failure ----------------------------------------------------------------------- *)
+
+Lemma obs_forgotten_other : forall n o out, op_name o <> n -> obs_forgotten n (o, out) = true.
+Proof.
+  intros n o out H. unfold obs_forgotten. cbn [fst snd].
+  destruct o; try reflexivity; cbn [op_name] in H;
+    (destruct (Nat.eqb n0 n) eqn:E; [apply Nat.eqb_eq in E; contradiction|reflexivity]).
+Qed.
+
+(* a registry that knows nothing about n answers so, in any variant, until something is done for n *)
+Lemma forgotten_state : forall vt n ops s,
+  view s n = (None, None, None, false) ->
+  forgotten_from n (trace_from vt s ops) = true.
+Proof.
+  intros vt n ops. induction ops as [|o r IH]; intros s Hv; [reflexivity|].
+  rewrite trace_from_cons. cbn [forgotten_from fst].
+  destruct (Nat.eq_dec (op_name o) n) as [Hn|Hn].
+  - destruct (step_self vt s o n Hn) as [Hv' Ho]. rewrite Hv in Hv', Ho.
+    set (s' := fst (rstep vt s o)) in *. set (out := snd (rstep vt s o)) in *.
+    destruct o as [m f|m|m w|m early fout|m|m w|m|m]; cbn [op_name] in Hn; subst m;
+      cbn [introduces]; rewrite ?Nat.eqb_refl; unfold obs_forgotten; cbn [fst snd];
+      rewrite ?Nat.eqb_refl; try reflexivity.
+    + (* ORemove *) cbn [vstep fst] in Hv'. exact (IH s' Hv').
+    + (* OGet: a miss, whatever early says *)
+      cbn [vstep] in Hv', Ho. destruct early; cbn [fst snd] in Hv', Ho; rewrite Ho;
+        cbn [rout_eqb optver_eqb optnat_eqb andb]; exact (IH s' Hv').
+    + (* OBegin: a fresh attempt *) cbn [vstep snd] in Ho. rewrite Ho. reflexivity.
+    + (* OEndErr *) cbn [vstep fst] in Hv'. destruct (fix_c04 vt); exact (IH s' Hv').
+    + (* OIsCreating *) cbn [vstep fst snd] in Hv', Ho. rewrite Ho. cbn [rout_eqb Bool.eqb andb].
+      exact (IH s' Hv').
+  - rewrite obs_forgotten_other, introduces_other by exact Hn. cbn [andb].
+    apply IH. rewrite rstep_view_other by exact Hn. exact Hv.
+Qed.
+
+(* the repaired registry: after OEndErr n the registry knows nothing about n.  No protocol hypothesis. *)
+Lemma end_err_view : forall s n, view (fst (rstep repaired s (OEndErr n))) n = (None, None, None, false).
+Proof.
+  intros s n. destruct (step_self repaired s (OEndErr n) n eq_refl) as [Hv _].
+  destruct (view s n) as [[[l1 l2] l3] c]. exact Hv.
+Qed.
+
+Theorem clean_failure_from : forall ops s, clean_failure_b (trace_from repaired s ops) = true.
+Proof.
+  induction ops as [|o r IH]; intros s; [reflexivity|].
+  rewrite trace_from_cons.
+  destruct o as [m f|m|m v|m early fout|m|m v|m|m]; cbn [clean_failure_b]; try apply IH.
+  rewrite IH, andb_true_r. apply forgotten_state. apply end_err_view.
+Qed.
+
+Lemma view_forgotten : forall s n, view s n = (None, None, None, false) <-> forgotten s n.
+Proof.
+  intros s n. unfold view, forgotten, is_creating. split.
+  - intros H. inversion H. repeat split; reflexivity.
+  - intros [H1 [H2 [H3 H4]]]. rewrite H1, H2, H3, H4. reflexivity.
+Qed.
+
+Theorem clean_failure_state : forall pre n, forgotten (state_after repaired (pre ++ [OEndErr n])) n.
+Proof.
+  intros pre n. apply view_forgotten. unfold state_after. rewrite rrun_app. cbn [fst].
+  rewrite rrun_cons. cbn [fst rrun]. apply end_err_view.
+Qed.
+
+Lemma clean_failure_b_spec : forall tr,
+  clean_failure_b tr = true ->
+  forall pre n out post, tr = pre ++ (OEndErr n, out) :: post -> forgotten_from n post = true.
+Proof.
+  intros tr H pre. revert tr H. induction pre as [|e pre IH]; intros tr H n out post Heq.
+  - subst tr. cbn [app clean_failure_b] in H. apply andb_true_iff in H. apply H.
+  - subst tr. rewrite <- app_comm_cons in H.
+    apply (IH (pre ++ (OEndErr n, out) :: post)) with (out := out); [|reflexivity].
+    destruct e as [o eo]. destruct o; cbn [clean_failure_b] in H; try exact H.
+    apply andb_true_iff in H. apply H.
+Qed.
+
+(* forgotten_from says: no lookup after the failure returns a reference before something is done for n *)
+Lemma forgotten_no_stale_hits : forall n tr, forgotten_from n tr = true -> stale_hits n tr = [].
+Proof.
+  intros n tr. induction tr as [|[o out] r IH]; intros H; [reflexivity|].
+  cbn [forgotten_from fst] in H. apply andb_true_iff in H. destruct H as [Ho H].
+  cbn [stale_hits fst].
+  assert (Hhd : match (o, out) with
+                | (OGet m _ _, RVal (Some v) _) => if Nat.eqb m n then [v] else []
+                | _ => []
+                end = []).
+  { unfold obs_forgotten in Ho. cbn [fst snd] in Ho. destruct o; try reflexivity.
+    destruct out as [|[v|] i|f|b]; try reflexivity.
+    destruct (Nat.eqb n0 n); [|reflexivity]. cbn in Ho. discriminate. }
+  rewrite Hhd. cbn [app]. destruct (introduces n o); [reflexivity|exact (IH H)].
+Qed.
